@@ -114,18 +114,32 @@ impl VerbatimModuleSyntax {
       );
     } else {
       for specifier in type_only_usage {
-        context.add_diagnostic_with_fixes(
-          specifier.range(),
-          CODE,
-          Message::ImportIdentUsedInTypes,
-          Some(Hint::AddTypeKeyword.to_string()),
+        // An inline `type` modifier only exists for named specifiers whose
+        // imported name is an identifier: `import A, type * as ns` and
+        // `import { type "a" as b }` don't parse, and `import type A, { b }`
+        // would turn the whole declaration into a type-only one.
+        let can_add_type = matches!(
+          specifier,
+          ast_view::ImportSpecifier::Named(named)
+            if !matches!(named.imported, Some(ast_view::ModuleExportName::Str(_)))
+        );
+        let fixes = if can_add_type {
           vec![LintFix {
             description: FIX_DESC.into(),
             changes: vec![LintFixChange {
               new_text: "type ".into(),
               range: specifier.start().range(),
             }],
-          }],
+          }]
+        } else {
+          vec![]
+        };
+        context.add_diagnostic_with_fixes(
+          specifier.range(),
+          CODE,
+          Message::ImportIdentUsedInTypes,
+          Some(Hint::AddTypeKeyword.to_string()),
+          fixes,
         );
       }
     }
@@ -227,6 +241,10 @@ impl LintRule for VerbatimModuleSyntax {
     context: &mut Context,
     program: Program,
   ) {
+    // `import type` / `export type` only exist in TypeScript.
+    if !context.media_type().is_typed() {
+      return;
+    }
     let module = match program.program() {
       Program::Module(module) => module,
       Program::Script(_) => return,
